@@ -1,0 +1,203 @@
+//! Vec-backed sorted map / set with the subset of the `std::collections::{BTreeMap, BTreeSet}` API
+//! that this crate uses.  Elements are kept sorted by `Ord`, so iteration order and the derived
+//! comparisons are the same as for the B-tree containers.
+use std::borrow::Borrow;
+use std::cmp::Ordering;
+
+#[derive(Debug, Clone, PartialEq, Eq, PartialOrd, Ord, Hash)]
+pub struct BTreeSet<T> {
+    items: Vec<T>,
+}
+
+impl<T> Default for BTreeSet<T> {
+    fn default() -> Self {
+        BTreeSet { items: Vec::new() }
+    }
+}
+
+impl<T> BTreeSet<T> {
+    pub fn new() -> Self {
+        BTreeSet { items: Vec::new() }
+    }
+    pub fn len(&self) -> usize {
+        self.items.len()
+    }
+    pub fn is_empty(&self) -> bool {
+        self.items.is_empty()
+    }
+    pub fn iter(&self) -> std::slice::Iter<'_, T> {
+        self.items.iter()
+    }
+}
+
+impl<T: Ord> BTreeSet<T> {
+    /// index of the first element that is >= v, and whether it is equal to v
+    fn slot<Q: ?Sized + Ord>(&self, v: &Q) -> (usize, bool)
+    where
+        T: Borrow<Q>,
+    {
+        let mut i = 0;
+        while i < self.items.len() {
+            match self.items[i].borrow().cmp(v) {
+                Ordering::Less => i += 1,
+                Ordering::Equal => return (i, true),
+                Ordering::Greater => return (i, false),
+            }
+        }
+        (i, false)
+    }
+    pub fn insert(&mut self, v: T) -> bool {
+        let (i, found) = self.slot(&v);
+        if found {
+            false
+        } else {
+            self.items.insert(i, v);
+            true
+        }
+    }
+    pub fn contains<Q: ?Sized + Ord>(&self, v: &Q) -> bool
+    where
+        T: Borrow<Q>,
+    {
+        self.slot(v).1
+    }
+}
+
+impl<'a, T> IntoIterator for &'a BTreeSet<T> {
+    type Item = &'a T;
+    type IntoIter = std::slice::Iter<'a, T>;
+    fn into_iter(self) -> Self::IntoIter {
+        self.items.iter()
+    }
+}
+impl<T> IntoIterator for BTreeSet<T> {
+    type Item = T;
+    type IntoIter = std::vec::IntoIter<T>;
+    fn into_iter(self) -> Self::IntoIter {
+        self.items.into_iter()
+    }
+}
+
+#[derive(Debug, Clone)]
+pub struct BTreeMap<K, V> {
+    items: Vec<(K, V)>,
+}
+
+pub struct Iter<'a, K, V> {
+    it: std::slice::Iter<'a, (K, V)>,
+}
+impl<'a, K, V> Iterator for Iter<'a, K, V> {
+    type Item = (&'a K, &'a V);
+    fn next(&mut self) -> Option<(&'a K, &'a V)> {
+        self.it.next().map(|(k, v)| (k, v))
+    }
+}
+pub struct Values<'a, K, V> {
+    it: std::slice::Iter<'a, (K, V)>,
+}
+impl<'a, K, V> Iterator for Values<'a, K, V> {
+    type Item = &'a V;
+    fn next(&mut self) -> Option<&'a V> {
+        self.it.next().map(|(_, v)| v)
+    }
+}
+pub struct ValuesMut<'a, K, V> {
+    it: std::slice::IterMut<'a, (K, V)>,
+}
+impl<'a, K, V> Iterator for ValuesMut<'a, K, V> {
+    type Item = &'a mut V;
+    fn next(&mut self) -> Option<&'a mut V> {
+        self.it.next().map(|(_, v)| v)
+    }
+}
+
+impl<K, V> Default for BTreeMap<K, V> {
+    fn default() -> Self {
+        BTreeMap { items: Vec::new() }
+    }
+}
+
+impl<K, V> BTreeMap<K, V> {
+    pub fn new() -> Self {
+        BTreeMap { items: Vec::new() }
+    }
+    pub fn len(&self) -> usize {
+        self.items.len()
+    }
+    pub fn is_empty(&self) -> bool {
+        self.items.is_empty()
+    }
+    pub fn iter(&self) -> Iter<'_, K, V> {
+        Iter { it: self.items.iter() }
+    }
+    pub fn values(&self) -> Values<'_, K, V> {
+        Values { it: self.items.iter() }
+    }
+    pub fn values_mut(&mut self) -> ValuesMut<'_, K, V> {
+        ValuesMut { it: self.items.iter_mut() }
+    }
+    pub fn retain<F: FnMut(&K, &mut V) -> bool>(&mut self, mut f: F) {
+        self.items.retain_mut(|(k, v)| f(k, v));
+    }
+}
+
+impl<K: Ord, V> BTreeMap<K, V> {
+    fn slot<Q: ?Sized + Ord>(&self, k: &Q) -> (usize, bool)
+    where
+        K: Borrow<Q>,
+    {
+        let mut i = 0;
+        while i < self.items.len() {
+            match self.items[i].0.borrow().cmp(k) {
+                Ordering::Less => i += 1,
+                Ordering::Equal => return (i, true),
+                Ordering::Greater => return (i, false),
+            }
+        }
+        (i, false)
+    }
+    pub fn insert(&mut self, k: K, v: V) -> Option<V> {
+        let (i, found) = self.slot(&k);
+        if found {
+            Some(std::mem::replace(&mut self.items[i].1, v))
+        } else {
+            self.items.insert(i, (k, v));
+            None
+        }
+    }
+    pub fn get<Q: ?Sized + Ord>(&self, k: &Q) -> Option<&V>
+    where
+        K: Borrow<Q>,
+    {
+        let (i, found) = self.slot(k);
+        if found { Some(&self.items[i].1) } else { None }
+    }
+    pub fn get_mut<Q: ?Sized + Ord>(&mut self, k: &Q) -> Option<&mut V>
+    where
+        K: Borrow<Q>,
+    {
+        let (i, found) = self.slot(k);
+        if found { Some(&mut self.items[i].1) } else { None }
+    }
+    pub fn contains_key<Q: ?Sized + Ord>(&self, k: &Q) -> bool
+    where
+        K: Borrow<Q>,
+    {
+        self.slot(k).1
+    }
+    pub fn remove<Q: ?Sized + Ord>(&mut self, k: &Q) -> Option<V>
+    where
+        K: Borrow<Q>,
+    {
+        let (i, found) = self.slot(k);
+        if found { Some(self.items.remove(i).1) } else { None }
+    }
+}
+
+impl<'a, K, V> IntoIterator for &'a BTreeMap<K, V> {
+    type Item = (&'a K, &'a V);
+    type IntoIter = Iter<'a, K, V>;
+    fn into_iter(self) -> Self::IntoIter {
+        self.iter()
+    }
+}
